@@ -13,23 +13,6 @@ Inductive val := VNone | VInt (z : Z) | VBool (b : bool) | VStr (s : sval) | VSe
 
 Definition is_none (v : val) : bool := match v with VNone => true | _ => false end.
 
-(* Python's == on this universe (list membership `a in used_args`): True == 1, False == 0, strings by content *)
-Definition num_of (v : val) : option Z :=
-  match v with VInt z => Some z | VBool true => Some 1 | VBool false => Some 0 | _ => None end.
-Definition val_eq (a b : val) : bool :=
-  match num_of a, num_of b with
-  | Some x, Some y => x =? y
-  | None, None =>
-      match a, b with
-      | VNone, VNone => true
-      | VSelf, VSelf => true
-      | VStr (SNum x p), VStr (SNum y q) => (x =? y) && Bool.eqb p q
-      | VStr (SWord x), VStr (SWord y) => x =? y
-      | _, _ => false
-      end
-  | _, _ => false
-  end.
-
 Definition reject {A} : outcome A := Raise ValidatorExceptionC.
 Definition conv_err {A} : outcome A := Raise ConversionErrorC.
 
@@ -191,7 +174,7 @@ Definition eval_case (ps : list (param val)) (sps : list (sigparam val)) (varkw 
   let dc := {| d_params := ps; d_mode := mode_of mode; d_strict := strict; d_ignore_input := ignore |} in
   let env := mkenv rq in
   let c := {| c_args := args; c_kwargs := kwargs |} in
-  let r := run val is_none val_eq Gen.Validate.cfg Gen.Validate.is_required_rule sg env dc is_async c in
+  let r := run val is_none Gen.Validate.cfg Gen.Validate.is_required_rule sg env dc is_async c in
   enc_journal (fst r) ++ enc_final (snd r) ++ [-1]
   ++ [domain sg dc env c]
   ++ (if varpos then enc_demanded_star (spec_star_outcome val is_none sg dc c) else enc_demanded (spec_outcome val is_none sg dc c))
